@@ -81,9 +81,9 @@ func genC06(t *rapid.T) c06Case {
 	cs := c06Case{Env: map[string]string{"SECRET_token": "tok", "SECRET_cert": "cert", "SECRET_apikey": "key"}}
 	if rapid.IntRange(0, 2).Draw(t, "with-options") == 0 {
 		// options the caller sets apply to every file of the project, included ones too
-		bits := rapid.IntRange(1, 15).Draw(t, "options")
-		cs.Opts = loadOpts{SkipDefaultValues: bits&1 != 0, SkipNormalization: bits&2 != 0, SkipConsistencyCheck: bits&4 != 0, SkipResolveEnvironment: bits&8 != 0}
-		for i, n := range []string{"skip-default-values", "skip-normalization", "skip-consistency-check", "skip-resolve-environment"} {
+		bits := rapid.IntRange(1, 31).Draw(t, "options")
+		cs.Opts = loadOpts{SkipDefaultValues: bits&1 != 0, SkipNormalization: bits&2 != 0, SkipConsistencyCheck: bits&4 != 0, SkipResolveEnvironment: bits&8 != 0, CustomSubstitute: bits&16 != 0}
+		for i, n := range []string{"skip-default-values", "skip-normalization", "skip-consistency-check", "skip-resolve-environment", "custom-substitute"} {
 			if bits&(1<<i) != 0 {
 				cs.Features = append(cs.Features, "option:"+n)
 			}
@@ -212,6 +212,19 @@ func genC06(t *rapid.T) c06Case {
 					lw["probe.own"] = "${OWN_VALUE}"
 					lp["probe.own"] = fmt.Sprintf("from-group-%d", owner)
 					cs.Features = append(cs.Features, "sibling-includes-own-environment")
+				}
+			}
+			if cs.Opts.CustomSubstitute {
+				// the caller's own substitution function is the one every file of the project is interpolated with
+				lw, _ := sm["labels"].(map[string]any)
+				lp, _ := vm["labels"].(map[string]any)
+				if (lw != nil || sm["labels"] == nil) && (lp != nil || vm["labels"] == nil) {
+					if lw == nil {
+						lw, lp = map[string]any{}, map[string]any{}
+						sm["labels"], vm["labels"] = lw, lp
+					}
+					lw["probe.substitute"] = "${CUSTOM_SUBSTITUTE_MARK:-default-substitute}"
+					lp["probe.substitute"] = "custom-substitute"
 				}
 			}
 			if rapid.IntRange(0, 2).Draw(t, "emptyparent") == 0 {
